@@ -40,10 +40,14 @@ MUTANTS = [
     ("C15", "processor/context/callback_context.py", "        if event in ['exception', 'return']:", "        if event in ['exception', 'return', 'line']:"),
     ("C15", "processor/context/callback_context.py", "if file != self.__filename or function_name != self.__function_name:", "if file != self.__filename:"),
     ("C04", "api/tracepoint/trigger.py", "return self.__get_int(FIRE_PERIOD, 1000)", "return self.__get_int(FIRE_PERIOD, 100)"),
+    ("C14", "processor/trigger_handler.py", "        if self.__hooks_installed:\n            sys.settrace(self.__old_sys_trace)", "        if True:\n            sys.settrace(self.__old_sys_trace)"),
+    ("C14", "processor/trigger_handler.py", "            threading.settrace(self.__old_thread_trace)\n", "            threading.settrace(self.__old_sys_trace)\n"),
+    ("C14", "processor/trigger_handler.py", "        self.__inert = True\n", ""),
+    ("C17", "processor/context/metric_action.py", "        if self.__has_metric_processor():\n            return super().can_trigger()\n        return False", "        return super().can_trigger()"),
 ]
 if len(sys.argv) > 1:
     MUTANTS = [m for m in MUTANTS if m[0] in sys.argv[1:]]
-ALL = ["C02", "C03", "C04", "C05", "C10", "C11", "C12", "C13", "C15", "C18", "C19"]
+ALL = ["C02", "C03", "C04", "C05", "C10", "C11", "C12", "C13", "C14", "C15", "C17", "C18", "C19"]
 
 
 def verdicts():
